@@ -465,12 +465,13 @@ impl Srv {
 
     async fn exec_client(&mut self, cname: &str, name: &str, op: &Value) -> Value {
         let tokens = self.tokens.clone();
+        let addr = self.addr;
         if (name == "consume" || name == "produce") && op.get("fresh").and_then(|v| v.as_bool()).unwrap_or(false) {
             // a connection of its own, closed afterwards: a request cancelled in flight cannot disturb later operations
             let c = IggyClient::builder().with_tcp().with_server_address(self.addr.to_string()).build().unwrap();
             c.connect().await.unwrap();
             c.login_user("iggy", "iggy").await.unwrap();
-            let r = if name == "consume" { crate::client::consume(&c, op).await } else { crate::client::produce(&c, op).await };
+            let r = if name == "consume" { crate::client::consume(&c, self.addr, op).await } else { crate::client::produce(&c, op).await };
             let _ = c.disconnect().await;
             return r;
         }
@@ -524,7 +525,7 @@ impl Srv {
             "create_partitions" => unit!(c.create_partitions(&stream, &topic, u(op, "n") as u32).await),
             "delete_partitions" => unit!(c.delete_partitions(&stream, &topic, u(op, "n") as u32).await),
             "produce" => crate::client::produce(c, op).await,
-            "consume" => crate::client::consume(c, op).await,
+            "consume" => crate::client::consume(c, addr, op).await,
             "send" => {
                 let mut msgs: Vec<Message> = op["msgs"]
                     .as_array()
